@@ -152,6 +152,10 @@ def run(ctx):
         seen[(o.kind, o.text)] = i + 1
         nq += 1 if o.kind == 'query' else 0
         chk.ob('Q5', '%s[%s#%d]' % (o.kind, o.text, i), o.ok, o.node.where(), F.name, o.missing, how=o.how)
+    if nq < 2 and not copies and any(c.get('callee') in ('strncpy', 'memcpy', 'memmove')
+                                    for g in common.with_helpers(prog, F)[1:] for c in g.calls()):
+        raise AnalysisBroken('disable builds the new content in a file-local helper: the three-part-copy rule Q5 is written for '
+                             'copies made in %s itself and does not follow that split' % F.name)
     if nq < 2:
         chk.ob('Q5', 'three-part-copy-identified', False, F.where(), F.name,
                'disable does not build the new content from two recognisable copies around the entry\'s line '
@@ -181,7 +185,7 @@ def line_helpers_rule(ctx, prog):
     P = Lin.sym(('var', p0, GL.params[0]['name']))
     SL = Lin.sym(('strlen', ('decl', p0), GL.params[0]['name']))
     ok, detail = False, 'no search for the newline found'
-    spans = [c for c in GL.calls('strcspn') if (decl_of(arg(c, 0)) or {}).get('id') == p0 and strip(arg(c, 1)).get('s') == '\n']
+    spans = [c for c in GL.calls('strcspn') if (decl_of(arg(c, 0)) or {}).get('id') == p0 and strip(arg(c, 1)).get('s') == '\\x0a']
     hits = [c for c in GL.calls() if c.get('callee') in ('strchr', 'memchr') and (decl_of(arg(c, 0)) or {}).get('id') == p0 and
             strip(arg(c, 1)).get('v') == 10]
     rets = C.return_nodes(GL)
